@@ -221,7 +221,7 @@ impl<'a> VisitMut for Rw<'a> {
                     let hit = self.maps.exprmap.iter().find(|(k, _)| *k == cur).cloned();
                     if let Some((k, v)) = hit {
                         if let Ok(pe) = parse_str::<Expr>(&v) {
-                            if matches!(pe, Expr::Field(_) | Expr::Path(_)) && matches!(&*init.expr, Expr::MethodCall(m) if m.args.is_empty()) {
+                            if matches!(pe, Expr::Field(_)) && matches!(&*init.expr, Expr::MethodCall(m) if m.args.is_empty()) {
                                 let is_mut = k.trim_end_matches(|c: char| c == '(' || c == ')' || c == ' ').ends_with("_mut");
                                 let txt = if is_mut { format!("&mut {v}") } else { format!("&{v}") };
                                 if let Ok(ne) = parse_str::<Expr>(&txt) {
